@@ -115,6 +115,12 @@ def hex_predicates(cfg, x, y, ap):
                 if d > 10 * MARGIN * max(1.0, rho):
                     bad.append(f'gap 0: sample {[int(i), int(j)]} is in two segments and not on a shared edge')
                     break
+    # local coordinates handed to the OPD bases: the grid restricted to the window, relative to the segment centre
+    for sid, c, win, (lx, ly) in zip(ids, ap.all_centers, ap.windows, ap.local_coords):
+        if lx.shape != x[win].shape or not (np.allclose(lx, x[win] - c[0], rtol=0, atol=1e-12 * max(1.0, abs(c[0])))
+                                            and np.allclose(ly, y[win] - c[1], rtol=0, atol=1e-12 * max(1.0, abs(c[1])))):
+            bad.append(f'segment {sid}: local_coords are not (x[window] - cx, y[window] - cy)')
+            break
     # window containment: every sample of the full grid that lies inside the segment's hexagon (beyond the boundary margin)
     # must be inside the segment's window AND set in its local mask -- a window that cuts off a row or column of the hexagon
     # makes the segment mask (and amp) smaller than the shape
@@ -292,6 +298,60 @@ def key_predicates(cfg, x, y, ap):
     miss = ap.amp & (count == 0)
     if miss.any():
         bad.append(f'{int(miss.sum())} transmitting samples of the aperture mask belong to no segment')
+    # analytic polar oracle, sample for sample on the FULL grid (samples within the margin of a boundary are undecided):
+    # centre disc r <= ccd/2; keystone j of a ring: rin < r <= rout and angle in the open interval (lo_j, lo_j + arc) mod 2pi;
+    # amp: centre disc, or a ring annulus minus the strips of half-width gap/2 along each seam ray (the spiders)
+    mg = MARGIN * max(1.0, cfg['diameter'])
+    rr_ = np.hypot(x, y)
+    tt_ = np.arctan2(y, x)
+    two_pi = 2 * np.pi
+
+    def emb(win, m):
+        e = np.zeros(x.shape, dtype=bool)
+        e[win] = m
+        return e
+
+    def cmp_mask(name, got, exp, near):
+        dec = ~near
+        if not np.array_equal(got[dec], exp[dec]):
+            w_ = np.argwhere(dec & (got != exp))
+            extra = int((got & ~exp & dec).sum())
+            bad.append(f'{name}: {len(w_)} samples differ from the analytic shape ({extra} extra, {len(w_) - extra} missing), e.g. index {w_[0].tolist()}')
+
+    rc = cfg['ccd'] / 2
+    cmp_mask('centre disc', emb(ap.center_window, ap.center_mask), rr_ <= rc, np.abs(rr_ - rc) < mg)
+    amp_exp = rr_ <= rc
+    amp_near = np.abs(rr_ - rc) < mg
+    rout_ = rc
+    k_ = 0
+    rots = cfg['rotation'] if cfg['rotation'] is not None else [None] * cfg['rings']
+    for nseg, rot in zip(cfg['spr'], rots):
+        rin_ = rout_ + cfg['gap']
+        rout_ = rin_ + cfg['ring_radius']
+        arc = two_pi / nseg
+        rot_deg = 360.0 / nseg if rot is None else rot
+        ann = (rr_ > rin_) & (rr_ <= rout_)
+        ann_near = (np.abs(rr_ - rin_) < mg) | (np.abs(rr_ - rout_) < mg)
+        strips = np.zeros(x.shape, dtype=bool)
+        strips_near = np.zeros(x.shape, dtype=bool)
+        for j in range(nseg):
+            lo_ = np.radians(j * 360.0 / nseg + rot_deg) - np.pi
+            d = np.mod(tt_ - lo_, two_pi)
+            sec = (d > 0) & (d < arc)
+            sec_near = (np.minimum(np.minimum(d, np.abs(d - arc)), two_pi - d) * rr_ < mg)
+            if k_ < len(ap.segment_masks):
+                cmp_mask(f'keystone {k_}', emb(ap.segment_windows[k_], ap.segment_masks[k_]), ann & sec, ann_near | sec_near)
+            k_ += 1
+            beta = lo_ + arc
+            along = x * np.cos(beta) + y * np.sin(beta)
+            perp = -x * np.sin(beta) + y * np.cos(beta)
+            strips |= (along > 0) & (np.abs(perp) < cfg['gap'] / 2)
+            strips_near |= (np.abs(np.abs(perp) - cfg['gap'] / 2) < mg) & (along > -mg) | (np.abs(along) < mg) & (np.abs(perp) < cfg['gap'] / 2 + mg)
+        amp_exp |= ann & ~strips
+        amp_near |= ann_near | (strips_near & (rr_ > rin_ - mg) & (rr_ <= rout_ + mg))
+        if len(bad) > 3:
+            break
+    cmp_mask('aperture mask (amp)', ap.amp, amp_exp, amp_near)
     # every segment's radial extent: rin < r <= rout of its ring (analytic oracle), ring by ring
     r = np.hypot(x, y)
     rout = cfg['ccd'] / 2
@@ -598,6 +658,26 @@ def correspondence(ctx):
         for b in prim_predicates(kind, case, m.astype(bool), x, y)[:1]:
             ctx.pred_fail(kind, case, b)
 
+    # ---------------- primitives whose coordinates the code rotates / shifts itself: independent analytic oracle with a margin band
+    for i in range(ctx.scale(40, 600)):
+        n = int(rng.choice([31, 32, 48, 63]))
+        shape = (n, n + (i % 3) - 1)
+        x, y = co.make_xy_grid(shape, diameter=2)
+        which = i % 3
+        if which == 0:
+            case = {'prim': 'spider', 'shape': list(shape), 'vanes': int(rng.integers(1, 7)), 'width': float(rng.uniform(0.03, 0.3)),
+                    'rotation': float(rng.uniform(-180, 180)), 'center': [float(v) for v in rng.uniform(-0.4, 0.4, 2)] if i % 2 else [0.0, 0.0],
+                    'rad': bool(i % 4 == 1)}
+        elif which == 1:
+            case = {'prim': 'rectangle', 'shape': list(shape), 'width': float(rng.uniform(0.1, 0.9)),
+                    'height': None if i % 4 == 1 else float(rng.uniform(0.1, 0.9)), 'angle': float(rng.choice([0.0, 90.0, 30.0, -17.5, 45.0, 135.0]))}
+        else:
+            case = {'prim': 'offset_circle', 'shape': list(shape), 'radius': float(rng.uniform(0.1, 0.8)),
+                    'center': [float(v) for v in rng.uniform(-0.5, 0.5, 2)]}
+        ctx.case('geometry_oracle', case, tag=case['prim'])
+        for b in geometry_oracle(case)[:1]:
+            ctx.pred_fail('geometry_oracle', case, b)
+
     # ---------------- polygons (qhull) against the half-plane oracle; monotone; symmetric
     for i in range(ctx.scale(60, 2000)):
         n = int(rng.choice([48, 63, 64]))
@@ -630,6 +710,51 @@ def correspondence(ctx):
                 ctx.case('compose_opd', cfg, tag='keystone/' + ('xy' if cart else 'zernike'))
             except Exception as ex:
                 ctx.pred_fail('compose_opd', {**cfg, 'basis': 'xy' if i % 2 else 'zernike'}, f'keystone compose raised {type(ex).__name__}: {ex}')
+
+
+def geometry_oracle(case):
+    """spider(center, rotation, rotation_is_rad) / rectangle(any angle, height=None) / offset_circle on the real code against
+    formulas that do not use the code's polar helpers; samples within the margin of a boundary are undecided"""
+    sg, ge, co, po = _impl()
+    x, y = co.make_xy_grid(tuple(case['shape']), diameter=2)
+    mg = 1e-9
+    if case['prim'] == 'spider':
+        rot = case['rotation']
+        m = ge.spider(case['vanes'], case['width'], x, y, rotation=np.radians(rot) if case['rad'] else rot,
+                      center=tuple(case['center']), rotation_is_rad=case['rad'])
+        blocked = np.zeros(x.shape, dtype=bool)
+        near = np.zeros(x.shape, dtype=bool)
+        xs, ys = x - case['center'][0], y - case['center'][1]
+        for k in range(case['vanes']):
+            phi = np.radians(rot) - 2 * np.pi * k / case['vanes']        # the k-th vane points along this direction
+            along = xs * np.cos(phi) + ys * np.sin(phi)
+            perp = -xs * np.sin(phi) + ys * np.cos(phi)
+            blocked |= (along > 0) & (np.abs(perp) < case['width'] / 2)
+            near |= (np.abs(np.abs(perp) - case['width'] / 2) < mg) | (np.abs(along) < mg)
+        exp, got = ~blocked, np.asarray(m, dtype=bool)
+    elif case['prim'] == 'rectangle':
+        h = case['height']
+        m = np.broadcast_to(ge.rectangle(case['width'], x, y, height=h, angle=case['angle']), x.shape)
+        h = case['width'] if h is None else h
+        a = np.radians(case['angle'])
+        xr = x * np.cos(a) - y * np.sin(a)          # the code turns the coordinates by +angle
+        yr = x * np.sin(a) + y * np.cos(a)
+        if case['angle'] == 90.0:
+            xr, yr = y, x                            # documented shortcut: swap the axes
+        exp = (np.abs(xr) <= case['width']) & (np.abs(yr) <= h)
+        near = (np.abs(np.abs(xr) - case['width']) < mg) | (np.abs(np.abs(yr) - h) < mg)
+        got = np.asarray(m, dtype=bool)
+    else:
+        m = ge.offset_circle(case['radius'], x, y, tuple(case['center']))
+        d = np.hypot(x - case['center'][0], y - case['center'][1])
+        exp, near, got = d <= case['radius'], np.abs(d - case['radius']) < mg, np.broadcast_to(np.asarray(m, dtype=bool), x.shape)
+    if got.shape != exp.shape:
+        return [f'{case["prim"]}: mask shape {got.shape} != grid shape {exp.shape}']
+    dec = ~near
+    if not np.array_equal(got[dec], exp[dec]):
+        w_ = np.argwhere(dec & (got != exp))
+        return [f'{case["prim"]}: {len(w_)} samples on the wrong side of the analytic boundary, e.g. index {w_[0].tolist()}']
+    return []
 
 
 def prim_predicates(kind, case, m, x, y):
@@ -778,6 +903,8 @@ def _eval(item, case):
         return [] if ok else [f'window {sx}, {sy} is not a valid slice of a {n2}x{n} array']
     if item == 'regular_polygon':
         return polygon_predicates(case)
+    if item == 'geometry_oracle':
+        return geometry_oracle(case)
     if item in ('circle', 'annulus', 'rect', 'ellipse', 'spider'):
         shape = tuple(case['shape'])
         x, y = co.make_xy_grid(shape, diameter=2)
@@ -850,6 +977,9 @@ def search(ctx, hints):
         cands.append(('spider', {'shape': shape, 'vanes': 3, 'width': 0.2, 'rotation': 0.0}))
     for sides in (3, 4, 6):
         cands.append(('regular_polygon', {'n': 32, 'sides': sides, 'radius': 0.7, 'rotation': 0.0, 'center': [0.0, 0.0]}))
+    cands.append(('geometry_oracle', {'prim': 'spider', 'shape': [32, 33], 'vanes': 3, 'width': 0.2, 'rotation': 25.0, 'center': [0.25, -0.1], 'rad': False}))
+    cands.append(('geometry_oracle', {'prim': 'rectangle', 'shape': [32, 33], 'width': 0.6, 'height': 0.3, 'angle': 30.0}))
+    cands.append(('geometry_oracle', {'prim': 'offset_circle', 'shape': [32, 33], 'radius': 0.4, 'center': [0.25, -0.1]}))
     cands.append(('keystone', {'n': 128, 'diameter': 8.0, 'ccd': 2.4, 'rings': 2, 'spr': [6, 12], 'ring_radius': 0.9, 'gap': 0.05, 'rotation': None}))
     for d in list(hints.get('pred_failures', [])) + list(hints.get('disagreements', [])):
         if isinstance(d.get('case'), dict):
